@@ -88,6 +88,9 @@ func (e *engine) getCompiledModule(module *wasm.Module, listeners []experimental
 func (e *engine) addCompiledModuleToMemory(m *wasm.Module, cm *compiledModule) {
 	e.mux.Lock()
 	defer e.mux.Unlock()
+	if e.compiledModules == nil { // Close was called concurrently: nothing to register to.
+		return
+	}
 	e.compiledModules[m.ID] = cm
 	if len(cm.executable) > 0 {
 		e.addCompiledModuleToSortedList(cm)
